@@ -457,6 +457,12 @@ type concCase struct {
 	Phantom    string   `json:"phantom"`
 	DurationMs int      `json:"duration_ms"`
 	Workers    int      `json:"workers"`
+	// statistics epochs: the body of the stats ticker (every module's PrintAndReset, as cmd/application/main.go
+	// registers them) in a tight loop, and workers that account already-parsed registrations (the tail of
+	// ingestRegistration) so that an epoch change falls between two lock-protected regions of the accounting often
+	Housekeeping bool     `json:"housekeeping"`
+	StatsWorkers int      `json:"stats_workers"`
+	StatsMsgs    []string `json:"stats_msgs"` // hex C2SWrapper messages with many generation / transport / library-version values
 }
 
 type concObs struct {
@@ -465,6 +471,9 @@ type concObs struct {
 	Wraps     int64 `json:"wraps"`
 	Sweeps    int64 `json:"sweeps"`
 	Done      bool  `json:"done"`
+	Epochs    int64 `json:"epochs"`
+	StatsAdds int64 `json:"stats_adds"`
+	StatsRegs int   `json:"stats_regs"`
 }
 
 func TestVerifC11StationConc(t *testing.T) {
@@ -479,6 +488,13 @@ func TestVerifC11StationConc(t *testing.T) {
 		t.Fatal(err)
 	}
 	res := make([]concObs, len(cases))
+	// the Stats singleton logs to what os.Stdout is when it is first used: keep the epoch lines out of the test output
+	if devnull, err := os.OpenFile(os.DevNull, os.O_WRONLY, 0); err == nil {
+		saved := os.Stdout
+		os.Stdout = devnull
+		Stat()
+		os.Stdout = saved
+	}
 	for ci, c := range cases {
 		rm := NewRegistrationManager(&RegConfig{EnableIPv4: true, EnableIPv6: true})
 		if rm == nil {
@@ -558,6 +574,60 @@ func TestVerifC11StationConc(t *testing.T) {
 				}(wt, k)
 			}
 		}
+		// the statistics ticker's body, again and again: one goroutine, like the one ticker of the station
+		var epochs, statsAdds int64
+		if c.Housekeeping {
+			zi := &ZMQIngester{regChan: make(chan interface{}, 16), logger: rm.Logger}
+			wg.Add(1)
+			go func() {
+				defer wg.Done()
+				for {
+					select {
+					case <-stop:
+						return
+					default:
+					}
+					zi.PrintAndReset(rm.Logger)
+					GetProxyStats().PrintAndReset(rm.Logger)
+					rm.PrintAndReset(rm.Logger)
+					Stat().PrintStats(false)
+					atomic.AddInt64(&epochs, 1)
+					if atomic.LoadInt64(&epochs)%64 == 0 {
+						time.Sleep(50 * time.Microsecond)
+					}
+				}
+			}()
+		}
+		// accounting of accepted registrations under many statistics keys
+		var statsRegs []*DecoyRegistration
+		for _, h := range c.StatsMsgs {
+			if regs, err := rm.parseRegMessage(vUnhex(h)); err == nil {
+				for _, r := range regs {
+					if r != nil {
+						statsRegs = append(statsRegs, r)
+					}
+				}
+			}
+		}
+		res[ci].StatsRegs = len(statsRegs)
+		for w := 0; w < c.StatsWorkers && len(statsRegs) > 0; w++ {
+			wg.Add(1)
+			go func(w int) {
+				defer wg.Done()
+				i := w
+				for {
+					select {
+					case <-stop:
+						return
+					default:
+					}
+					i++
+					rm.AddRegStats(statsRegs[i%len(statsRegs)])
+					rm.AddExpiredRegs(1, 1)
+					atomic.AddInt64(&statsAdds, 1)
+				}
+			}(w)
+		}
 		// the sweeper
 		wg.Add(1)
 		go func() {
@@ -584,6 +654,7 @@ func TestVerifC11StationConc(t *testing.T) {
 		}
 		res[ci].Ingested, res[ci].Announced = atomic.LoadInt64(&ingested), atomic.LoadInt64(&announced)
 		res[ci].Wraps, res[ci].Sweeps = atomic.LoadInt64(&wraps), atomic.LoadInt64(&sweeps)
+		res[ci].Epochs, res[ci].StatsAdds = atomic.LoadInt64(&epochs), atomic.LoadInt64(&statsAdds)
 	}
 	vWriteOut(t, res)
 }
